@@ -52,4 +52,12 @@ def renewExpiries (base : Inp) : List (Int × Int) → List Int
     | .ok ttl _ => (now + ttl) :: renewExpiries base rest
     | _ => renewExpiries base rest
 
+/-- the period a ROLE token is renewed with (`TokenStore.authRenew`): the period given at creation is stored on the token
+and keeps applying; with a role period as well, the lesser one (as at creation) -/
+def renewPeriod (tokenPeriod rolePeriod : Int) : Int :=
+  if tokenPeriod > 0 ∧ (rolePeriod = 0 ∨ tokenPeriod < rolePeriod) then tokenPeriod else rolePeriod
+
+/-- before the repair of F104: the role's period alone -/
+def renewPeriodRoleOnly (_tokenPeriod rolePeriod : Int) : Int := rolePeriod
+
 end Obao.TTL
